@@ -187,12 +187,13 @@ func (in *c7Inst) stmt(t *c7Node) Stmt {
 		return &If{Cond: vIs2, Then: kid(0)}
 	case c7WhileK:
 		k := "k" + in.next()
-		return &While{Cond: Bin("<", &Postfix{"++", V(k)}, N("2")), Body: kid(0)}
+		return Blk(&While{Cond: Bin("<", &Postfix{"++", V(k)}, N("2")), Body: kid(0)}, Pr(S("after while"), V(k)))
 	case c7WhileF:
 		return &While{Cond: &BoolLit{B: false}, Body: kid(0)}
 	case c7For3:
 		i := "i" + in.next()
-		return &For{Init: Asg("=", V(i), N("0")), Cond: Bin("<", V(i), N("2")), Post: &Postfix{"++", V(i)}, Body: Blk(Pr(S("for"), V(i)), kid(0))}
+		// the counter is shown after the loop: the post expression must not run for an iteration left by break
+		return Blk(&For{Init: Asg("=", V(i), N("0")), Cond: Bin("<", V(i), N("2")), Post: &Postfix{"++", V(i)}, Body: Blk(Pr(S("for"), V(i)), kid(0))}, Pr(S("after for"), V(i)))
 	case c7InArr1:
 		return forIn(false, arr())
 	case c7InArr2:
